@@ -440,3 +440,103 @@ def oracle_chain(line, out):
                 return None
             return f"chain total {got} is below the best order-respecting selection {best}"
     return None
+
+
+# ------------------------------------------------------------------ C15
+def pairs_of(items):
+    return [it for it in items if it[0] == "P"]
+
+
+def is_infix(small, big):
+    n = len(small)
+    return any(big[i:i + n] == small for i in range(len(big) - n + 1))
+
+
+def conflicts_between(a_items, b_items):
+    """shared reference label, shared query label, or crossing between two segments' pairs"""
+    for p in pairs_of(a_items):
+        for q in pairs_of(b_items):
+            if p[1] == q[1]:
+                return f"reference label {p[1]} in two segments"
+            if p[3] == q[3]:
+                return f"query label {p[3]} in two segments"
+            if (p[2] < q[2]) != (p[4] < q[4]) and p[2] != q[2] and p[4] != q[4]:
+                return f"pairs ({p[1]},{p[3]}) and ({q[1]},{q[3]}) cross"
+    return None
+
+
+def classify_resolveall(line, out, model_out, msg):
+    """mechanism classifier for surviving conflicts: re-walk the REAL resolver step by step"""
+    if "in two segments" not in msg and "cross" not in msg:
+        return None
+    try:
+        import realops
+        import codec
+        from src.alignment.segment_chainer import SegmentChainer, SequentialityScorer
+        from src.alignment.segments import _SegmentPairWithConflict
+        op, kv = kv_of(line)
+        P = realops.params(kv)
+        segs = codec.parse_segs(kv.get("SEG", ""), P)
+        chained = SegmentChainer(SequentialityScorer(realops.frac(kv["mult"]), int(kv["var"]))).chain(segs)
+        branches = []
+        for i in range(len(chained) - 1):
+            pair = chained[i].checkForConflicts(chained[i + 1])
+            b = "noconflict"
+            if isinstance(pair, _SegmentPairWithConflict):
+                lc, rc = pair.leftConflictingSubsegment, pair.rightConflictingSubsegment
+                if lc.peak.position > rc.peak.position:
+                    a, c = lc.getReferenceLabels(), rc.getReferenceLabels()
+                else:
+                    a, c = lc.getQueryLabels(), rc.getQueryLabels()
+                if len(a.positions) == len(c.positions):
+                    k = int(_SegmentPairWithConflict._SegmentPairWithConflict__getOptimalMergeIndex(a, c))
+                    b = "index0" if k == 0 else ("indexN" if k == len(a.positions) else "interior")
+                else:
+                    b = "drop"
+            branches.append(b)
+            chained[i], chained[i + 1] = pair.resolveConflict()
+        final = [parse_items(codec.show_items(s.positions)) for s in chained]
+        sigs = set()
+        for i in range(len(final)):
+            for j in range(i + 1, len(final)):
+                if conflicts_between(final[i], final[j]):
+                    if j != i + 1:
+                        sigs.add("never-compared")
+                    elif branches[i] == "interior":
+                        sigs.add("interior-index-merge")
+                    else:
+                        sigs.add("unlisted:" + branches[i])
+        if len(sigs) == 1:
+            return sigs.pop()
+        if sigs and all(s in ("never-compared", "interior-index-merge") for s in sigs):
+            return "never-compared"  # both listed mechanisms present
+        return None
+    except Exception as e:  # classifier must never hide a violation
+        return None
+
+
+def oracle_resolveall(line, out):
+    op, kv = kv_of(line)
+    if out.startswith("ERR"):
+        return f"exception {out}"
+    P = params_of(kv)
+    segs_in = parse_segs(kv.get("SEG", ""))
+    res = parse_segs(out)
+    used = set()
+    for (peak, items) in res:
+        if not items:
+            continue
+        ok = False
+        for idx, (pk, its) in enumerate(segs_in):
+            if pk == peak and idx not in used and is_infix(items, its):
+                used.add(idx)
+                ok = True
+                break
+        if not ok:
+            return "a resulting segment is not a contiguous sub-run of one input segment"
+    for i in range(len(res)):
+        for j in range(i + 1, len(res)):
+            c = conflicts_between(res[i][1], res[j][1])
+            if c:
+                return f"after resolution: {c} (segments {i},{j})"
+    return None
